@@ -970,6 +970,53 @@ func c18ClientRouting(sc c18Scenario, rng *Rng, rep *c18Report) {
 	}
 	wg.Wait()
 	close(stop)
+	// (c) one query after the other on the same client, each id answered by several responders at once: what is left
+	// over from one query (responses that arrive after the first) must not be what the next query returns
+	stop2 := make(chan struct{})
+	go func() {
+		seen := map[uint16]bool{}
+		for {
+			select {
+			case <-stop2:
+				return
+			default:
+			}
+			cl.Queries.Range(func(k, v any) bool {
+				id := k.(uint16)
+				if !seen[id] {
+					seen[id] = true
+					b := mk(id, true, fmt.Sprintf("id-%d.local", id))
+					for k := 0; k < 3; k++ {
+						responder.Write(b)
+					}
+				}
+				return true
+			})
+			time.Sleep(200 * time.Microsecond)
+		}
+	}()
+	prev, havePrev, repeats := uint16(0), false, 0
+	for i := 0; i < 40 && time.Now().Before(deadline); i++ {
+		ctx, cancel := context.WithTimeout(context.Background(), 2*time.Second)
+		resp, err := cl.Query(ctx, fmt.Sprintf("seq%d.local", i), llmnr.TypeA)
+		cancel()
+		if err != nil {
+			rep.Stats["query_errors"]++
+			havePrev = false
+			continue
+		}
+		rep.Stats["sequential_query_answers"]++
+		if havePrev && resp.ID == prev {
+			// two random 16-bit ids in a row can be equal by chance (1 in 65536); twice in 40 queries they are not
+			if repeats++; repeats >= 2 {
+				rep.violate("llmnr Client.Query: consecutive queries on one client (each answered three times) returned a response with the id of the query before (%d; %d times in %d queries): a query was handed what was left over from the one before", prev, repeats, i+1)
+				break
+			}
+		}
+		prev, havePrev = resp.ID, true
+		time.Sleep(2 * time.Millisecond) // the remaining copies of this answer arrive before the next query starts
+	}
+	close(stop2)
 }
 
 // ---- Stop / Close at random moments ------------------------------------------------------------------
